@@ -183,9 +183,12 @@ PROPS = {
     "C04": dict(
         coq_targets=["Props/C04.vo"],
         harness=[dict(pkg="h_agent", bin="c04", cases={"quick": 300, "thorough": 5000},
-                      checkers=["corr", "oracle"], timeout=2400)],
+                      checkers=["corr", "oracle"], timeout=2400),
+                 dict(pkg="h_agent", bin="c01p", cases={"quick": 300, "thorough": 4000},
+                      checkers=["corr", "oracle", "corr_bridge"], timeout=2400)],
         allowed_axioms=[],
         trusted_base=[
+            "the link-protocol grammar theorems are about the value-lane pipeline model (Model/ValuePipeline.v: lane object, response routing, per-remote uplink specialised to one value lane, link / unlink / unlink_all), which is compared in lock step with the real ValueLane + ResponseReceiver + WriteTaskState (harness c01p) and with the general write-task model; lane-not-found answers, lane failure and map / supply lanes are covered by the general model's theorems and the c04 harness only",
             "lanes and remotes are numbers; value / supply bodies are byte strings (possibly empty), map events are entries of the C02 queue model rendered as Recon on the wire and parsed back by the harness; Links is abstracted to the set of (lane, remote) pairs (its bookkeeping is C20's subject)",
             "each remote's channel has room for everything: a WriteTask future completes when it is run; `remote speed' is where the write completions (Done) are placed in the operation sequence",
             "the order in which unlink_all walks the links is a hash-map order: model and implementation are compared per remote and lane",
